@@ -188,6 +188,17 @@ func Translate(u *Universe, evs []Event, wseed int64) ([]WStep, []string, string
 			if tip >= low {
 				tagset["wallet_disconnect_block"] = true
 			}
+			if tip > low && r.Chance(1, 5) {
+				// the whole rollback as ONE notification naming the lowest
+				// detached block (disconnectBlock: "the removed block and all
+				// blocks after it")
+				st.Notifs = append(st.Notifs, WNotif{K: "disconnect", H: low, B: chainAt[low]})
+				tagset["wallet_disconnect_below_tip"] = true
+				for tip >= low {
+					delete(chainAt, tip)
+					tip--
+				}
+			}
 			for tip >= low {
 				st.Notifs = append(st.Notifs, WNotif{K: "disconnect", H: tip, B: chainAt[tip]})
 				if r.Chance(1, 8) {
